@@ -8,12 +8,16 @@ git -C /repo worktree remove --force $WT 2>/dev/null; git -C /repo worktree add 
 for id in $ids; do
   d=/verif/seeded/$id; prop=${id%-*}
   [ -f contracts/$(echo $prop | tr 'A-Z' 'a-z').py ] || { echo "$id: no check for $prop yet"; continue; }
-  git -C $WT checkout -q -- . ; git -C $WT apply $d/patch.diff || { echo "$id: patch does not apply"; continue; }
-  out=$(VF_REPO=$WT ./check $prop --tier ${TIER:-quick} 2>&1); rc=$?
+  # a seeded change whose code was rewritten by a later fix: commit records the tree it applies to (meta.json base_commit)
+  base=$(python3 -c "import json,sys; m=json.load(open('$d/meta.json')); print(m.get('base_commit',''))")
+  only=$(python3 -c "import json,sys; m=json.load(open('$d/meta.json')); print(m.get('only',''))")
+  git -C $WT checkout -q -- . ; git -C $WT checkout -q --detach ${base:-$(git -C /repo rev-parse HEAD)}
+  git -C $WT apply $d/patch.diff || { echo "$id: patch does not apply"; continue; }
+  out=$(VF_REPO=$WT ./check $prop --tier ${TIER:-quick} ${only:+--only $only} 2>&1); rc=$?
   git -C $WT checkout -q -- .
   nviol=$(echo "$out" | grep -c "^VIOLATION")
   first=$(echo "$out" | grep "^VIOLATION" | head -2 | tr '\n' ' ')
   echo "$id: exit=$rc violations=$nviol $first"
-  { echo "check: ./check $prop --tier ${TIER:-quick} (scratch worktree with the patch applied)"; echo "exit=$rc"; echo "$out" | grep "^VIOLATION\|^CHECKER\|^C[0-9][0-9] \["; } > $d/detect.txt
+  { echo "check: ./check $prop --tier ${TIER:-quick} ${only:+--only $only} (scratch worktree ${base:+at $base }with the patch applied)"; echo "exit=$rc"; echo "$out" | grep "^VIOLATION\|^CHECKER\|^C[0-9][0-9] \["; } > $d/detect.txt
 done
 git -C /repo worktree remove --force $WT
